@@ -275,7 +275,7 @@ def run_one(payload):
     cs = ChoiceSource(seed, replay=payload.get('choices'), keep_labels=payload.get('labels', False))
     tier = payload.get('tier', 'quick')
     c = gen_config(cs, tier, payload.get('force'))
-    sandbox = tempfile.mkdtemp(prefix='dsim-mc-', dir='/dev/shm')
+    sandbox = K.make_sandbox('mc', seed)
     rec = {'seed': seed, 'engine': 'mcsim', 'config': c}
     try:
         os.makedirs(os.path.join(sandbox, 'tmp'))
